@@ -12,7 +12,7 @@ def _rm(ctx, sub, tag):
 
 
 def run(ctx):
-    if not ctx.build_harness():
+    if not ctx.build_harness(["c07.go", "c07x.go"]):
         return
     ctx.forbidden_scan()
     # model + acceptor must build even when a theorem breaks
@@ -25,7 +25,8 @@ def run(ctx):
 
     quick = ctx.tier == "quick"
     nontrivial = lambda req, resp: resp != "err"
-    # 1. exact model comparison + acceptors on generated signatures x component paths
+    # 1. exact model comparison + acceptors on generated signatures x component paths (negative indices and
+    #    selectors — regression of F3, fixed in aab3c52 — are part of the normal stream and of the corpus)
     chunks = [(3000, 0)] if quick else [(6000, k) for k in range(10)]
     for n, k in chunks:
         tag = "" if quick else f"-{k}"
@@ -39,12 +40,6 @@ def run(ctx):
         tag = "" if quick else f"-{k}"
         ctx.differential("c07x", n, extra=["-dir", gen, "-chunk", str(k)], tag=tag, timeout=1200)
         _rm(ctx, "c07x", tag)
-    # 3. last, the requests with a negative index / selector (finding F3): kept apart so that they can
-    #    never crowd a different disagreement out of the report
-    ctx.differential("c07", 400 if quick else 3000, extra=["-neg"], tag="-neg", nontrivial=nontrivial,
-                     max_report=len(ctx.concrete) + 10)
-    _rm(ctx, "c07", "-neg")
-
     ctx.coverage["rule"] = (
         "generated signatures (nested structs with padding, zero-size and trailing zero-size fields, arrays of structs, "
         "complex, strings, slices, pointers, defined types; named/grouped/unnamed/blank parameters, 0..3 results; built "
